@@ -22,7 +22,7 @@ RULE = ('Hypothesis draws mode sizes (order 1..4, N <= 36 quick / 128 thorough),
         '(I-h/2 A)x+ = (I+h/2 A)x and the documented HOD three-term recurrence with its documented start, with the same '
         'normalisation fed back; the three defect formulas on arbitrary TT lists; ordering invariants of the adaptive method. '
         'Non-trivial: varying steps, normalize > 0, mals/lu, HOD order >= 4, an order-1 operator, or complex data.')
-RULE += (' ' + 'Added classes: size-1 modes, order 5, MALS started from a rank-one guess (dense operator, repeats 3, chains (3,2,2,2,3), (2,3,2,2,3), (2,)*6, (2,)*5), mixed operand dtypes, rescaled states; the inputs of the adaptive method are compared bit by bit.')
+RULE += (' ' + 'Added classes: size-1 modes, order 5, MALS started from a rank-one guess (dense operator, repeats 3, chains (3,2,2,2,3), (2,3,2,2,3), (2,)*6, (2,)*5), mixed operand dtypes, a complex rank-2 operator given by its cores with a real-typed first core, rescaled states; the inputs of the adaptive method are compared bit by bit.')
 
 ASSUMPTIONS = [
     'oracle: dense NumPy recurrences; operators converted with vt/dense.tt_svd',
@@ -69,6 +69,29 @@ def general_operator(rng, dims, cplx, terms=None):
     return A / max(np.linalg.norm(A, 2), 1e-12)       # spectral norm 1
 
 
+def kron_sum_operator(rng, dims, terms=2):
+    """sum of `terms` Kronecker products stored directly as cores of TT rank `terms`; the factors of the FIRST site are real-typed,
+    all later ones complex: a complex operator whose first core is float64 (a real on-site term times complex couplings)"""
+    d = len(dims)
+    F = [[build.rand_array(rng, (n, n), i > 0) for i, n in enumerate(dims)] for _ in range(terms)]
+    A = np.zeros((int(np.prod(dims)),) * 2, dtype=complex)
+    for f in F:
+        k = np.ones((1, 1))
+        for m_ in f:
+            k = np.kron(k, m_)
+        A = A + k
+    nrm = max(np.linalg.norm(A, 2), 1e-12)
+    cores = []
+    for i, n in enumerate(dims):
+        rl, rr = (1 if i == 0 else terms), (1 if i == d - 1 else terms)
+        core = np.zeros((rl, n, n, rr), dtype=complex if i > 0 else float)
+        for t in range(terms):
+            core[0 if i == 0 else t, :, :, 0 if i == d - 1 else t] = F[t][i]
+        cores.append(core)
+    cores[-1] = cores[-1] / nrm
+    return A / nrm, cores
+
+
 def normalise(x, p):
     if p == 1:
         return x / np.sum(x)
@@ -98,7 +121,9 @@ def euler_case(draw):
          'micro_solver': draw(st.sampled_from(['solve', 'lu'])), 'repeats': draw(st.sampled_from([1, 1, 2])),
          'x_rank': draw(st.integers(1, 3)), 'x_scale_exp': draw(st.sampled_from([0, 0, 0, -9, 7])),
          # mixed dtypes among operator / state / guess of a complex problem; a max_rank equal to the largest representable rank
-         'real_part': draw(st.sampled_from([None, None, 'op', 'state', 'guess'])), 'tight_max_rank': draw(st.sampled_from([False, False, True]))}
+         'real_part': draw(st.sampled_from([None, None, 'op', 'state', 'guess'])), 'tight_max_rank': draw(st.sampled_from([False, False, True])),
+         # a complex operator of TT rank 2 given by its cores, the first of which is real-typed
+         'op_real_first_core': draw(st.sampled_from([False, False, True]))}
     if draw(st.sampled_from([False, False, False, False, True])):
         # MALS may start from a guess of rank one when the operator is generic (dense): the two-site solutions then have full rank,
         # the ranks grow to the maximal ones within two sweeps, and from then on every micro system is posed in complete frames, so
@@ -119,6 +144,11 @@ def euler_case(draw):
     return c
 
 
+def op_real_first_core(c):
+    return bool(c.get('op_real_first_core')) and c['cplx'] and c['local'] and len(c['dims']) >= 2 and c.get('real_part') != 'op' \
+        and c['normalize'] != 1 and not c.get('tiny_first_step')
+
+
 def setup_euler(c):
     rng = np.random.default_rng(c['seed'])
     dims = c['dims']
@@ -132,6 +162,11 @@ def setup_euler(c):
     else:
         A = general_operator(rng, dims, c['cplx'] and c.get('real_part') != 'op', terms=2 if c['local'] else None) * (0.5 / max(c['steps']))
     op = TT(dense.op_cores(A, dims))
+    if op_real_first_core(c):
+        A, oc = kron_sum_operator(rng, dims)
+        A = A * (0.5 / max(c['steps']))
+        oc[-1] = oc[-1] * (0.5 / max(c['steps']))
+        op = TT(oc)
     mr = dense.max_ranks(dims)
     xr = [1] + [min(c['x_rank'], mr[i]) for i in range(1, d)] + [1]
     x0 = rnd_tt(rng, dims, xr, c['cplx'] and c.get('real_part') != 'state', nonneg=markov)
@@ -199,6 +234,8 @@ def body_euler(c):
         lab.add('rescaled_state')
     if c['cplx'] and c.get('real_part'):
         lab.add('mixed_operand_dtypes')
+    if op_real_first_core(c):
+        lab.add('operator_first_core_real_later_complex')
     if c.get('tight_max_rank'):
         lab.add('max_rank_equals_largest_representable')
     if c.get('guess_rank1') and c['tt_solver'] == 'mals' and c['scheme'] != 'explicit':
